@@ -3,7 +3,7 @@
     source on every run (translator T7 -> NSLDyn.Gen_WasmPack) and shown equal in NSLDyn.Agree_WasmPack. *)
 From Coq Require Import ZArith List Bool.
 Import ListNotations.
-Open Scope Z_scope.
+Local Open Scope Z_scope.
 
 (** Python's int.bit_length *)
 Definition bit_length (v : Z) : Z := if v =? 0 then 0 else Z.log2 (Z.abs v) + 1.
